@@ -105,6 +105,32 @@ pub enum Fault {
     /// an unterminated frame larger than the buffer limit (only with the lowered limit of the
     /// `zlink_verif_small_buf` build, where it is 4096 bytes)
     Oversized,
+    /// about 700 bytes of unbalanced JSON, three-byte characters throughout at alignment 0..3
+    LongGarbage(u8),
+    /// a well-formed call of about 700 bytes for a method the service does not have
+    LongUnknownMethod(u8),
+    /// a well-formed call of about 700 bytes whose parameters have the wrong types
+    LongWrongTypes(u8),
+    /// a call whose string parameter holds bytes that are not UTF-8
+    BadUtf8,
+}
+/// Undecodable frames that differ from the short ASCII ones in size (beyond two buffer steps) and
+/// content (valid UTF-8 made of three-byte characters, with one alignment per residue so that any
+/// byte offset falls inside a character for some of them; bytes that are not UTF-8 at all).
+pub const CONTENT_FAULTS: [Fault; 10] = [
+    Fault::LongGarbage(0),
+    Fault::LongGarbage(1),
+    Fault::LongGarbage(2),
+    Fault::LongUnknownMethod(0),
+    Fault::LongUnknownMethod(1),
+    Fault::LongUnknownMethod(2),
+    Fault::LongWrongTypes(0),
+    Fault::LongWrongTypes(1),
+    Fault::LongWrongTypes(2),
+    Fault::BadUtf8,
+];
+fn euros(align: u8) -> String {
+    format!("{}{}", "x".repeat(align as usize), "\u{20ac}".repeat(230))
 }
 #[cfg(not(zlink_verif_small_buf))]
 pub const ALL_FAULTS: [Fault; 8] = [Fault::Garbage, Fault::TruncatedThenEof, Fault::EofMidBurst, Fault::Eof, Fault::ReadError, Fault::WriteError, Fault::UnknownMethod, Fault::WrongTypes];
@@ -424,6 +450,31 @@ impl<'a> Sim<'a> {
                 c.closed = true;
                 c.wire.arrive(b"{\"method\":\"t.Plain\",\"parameters\":{\"n\":\"seven\",\"tag\":5}}\0");
             }
+            Fault::LongGarbage(a) => {
+                strong(c);
+                c.closed = true;
+                c.wire.arrive(format!("}}{{{}\0", euros(a)).as_bytes());
+            }
+            Fault::LongUnknownMethod(a) => {
+                strong(c);
+                c.closed = true;
+                c.wire.arrive(format!("{{\"method\":\"t.N{}\",\"parameters\":{{}}}}\0", euros(a)).as_bytes());
+            }
+            Fault::LongWrongTypes(a) => {
+                strong(c);
+                c.closed = true;
+                c.wire.arrive(format!("{{\"method\":\"t.Plain\",\"parameters\":{{\"n\":\"{}\",\"tag\":5}}}}\0", euros(a)).as_bytes());
+            }
+            Fault::BadUtf8 => {
+                strong(c);
+                c.closed = true;
+                let mut f = b"{\"method\":\"t.Plain\",\"parameters\":{\"n\":1,\"tag\":\"".to_vec();
+                for i in 0..200u8 {
+                    f.extend_from_slice(&[b'a' + i % 26, 0xff, 0xc3, 0x80 | (i % 0x40)]);
+                }
+                f.extend_from_slice(b"\"}}\0");
+                c.wire.arrive(&f);
+            }
         }
     }
 
@@ -632,7 +683,7 @@ impl ScenCfg {
             max_calls: v["max_calls"].as_u64()? as usize,
             max_events: v["max_events"].as_u64()? as usize,
             bursts: v["bursts"].as_array()?.iter().map(|b| b.as_array().unwrap().iter().map(|k| ck_parse(k.as_str().unwrap())).collect()).collect(),
-            faults: v["faults"].as_array()?.iter().map(|f| *ALL_FAULTS.iter().find(|x| format!("{x:?}") == f.as_str().unwrap()).unwrap()).collect(),
+            faults: v["faults"].as_array()?.iter().map(|f| *ALL_FAULTS.iter().chain(CONTENT_FAULTS.iter()).find(|x| format!("{x:?}") == f.as_str().unwrap()).unwrap()).collect(),
             max_faults: v["max_faults"].as_u64()? as usize,
             closes: v["closes"].as_bool()?,
             cuts: v["cuts"].as_bool()?,
@@ -803,6 +854,9 @@ impl Harness for Scenario {
                     if f == Fault::Oversized {
                         cx.goal("oversized-frame");
                     }
+                    if CONTENT_FAULTS.contains(&f) {
+                        cx.goal("long-undecodable-frame-of-multibyte-characters");
+                    }
                     sim.fault(i, f)
                 }
             }
@@ -898,6 +952,11 @@ pub fn run_c09(tier: Tier) -> i32 {
         Tier::Quick => vec![("3conns/4calls/8events/1fault", mk(3, 4, 8, 1, false, &bursts), 0), ("3conns/3calls/7events/2faults", mk(3, 3, 7, 2, false, &bursts), 0), ("2conns/3calls/6events/1fault+delay", mk(2, 3, 6, 1, true, &bursts), 2)],
         Tier::Thorough => vec![("4conns/5calls/9events/1fault", mk(4, 5, 9, 1, false, &bursts), 0), ("3conns/4calls/8events/2faults", mk(3, 4, 8, 2, false, &bursts), 0), ("3conns/4calls/7events/1fault+delay", mk(3, 4, 7, 1, true, &bursts), 2)],
     };
+    // undecodable frames that are long and not ASCII (what the server does with a frame it can not
+    // decode - logging it, quoting it in an answer - must not depend on what is in it)
+    let mut cf = mk(3, 3, tier.pick(6, 7), 1, false, &bursts);
+    cf.faults = CONTENT_FAULTS.to_vec();
+    plan.push(("3conns/3calls/6-7events/1-long-non-ascii-undecodable-frame", cf, 0));
     // faults while a stream is open
     bursts.push(vec![CK::W(1, true)]);
     plan.push(("streams/2conns/3calls/7-8events/1fault", mk(2, 3, tier.pick(7, 8), 1, false, &bursts), 0));
@@ -910,9 +969,9 @@ pub fn run_c09(tier: Tier) -> i32 {
     a.push("a connection struck by EOF / read error / write error may lose replies (its output must stay a prefix of its model); one that sent an undecodable frame is unconstrained afterwards (the server may answer it or drop it); every other connection must match its model exactly".into());
     a.push("this check is built with the buffer limit lowered to 4096 bytes (hook zlink_verif_small_buf), so that an oversized frame is an affordable fault".into());
     #[cfg(zlink_verif_small_buf)]
-    let goals = ["fault-with-other-connections-live", "connect-after-a-fault", "oversized-frame"];
+    let goals = ["fault-with-other-connections-live", "connect-after-a-fault", "oversized-frame", "long-undecodable-frame-of-multibyte-characters"];
     #[cfg(not(zlink_verif_small_buf))]
-    let goals = ["fault-with-other-connections-live", "connect-after-a-fault"];
+    let goals = ["fault-with-other-connections-live", "connect-after-a-fault", "long-undecodable-frame-of-multibyte-characters"];
     run_plan("C09", tier, RULE, a, &goals, plan)
 }
 
